@@ -367,6 +367,23 @@ def but_contract(ck: Check, specs):
                     elif new.metadata is node.metadata or new.metadata != node.metadata:
                         ck.counterexample(f'but:metadata:{type(node).__name__}', f'but() copy of «{node}» shares or loses the metadata', {'kind': 'but', 'text': str(node)})
                         bad += 1
+            # cast(): a narrowed copy is a NEW object equal to but(data_type=...) whose metadata dict is its own
+            from hpl.types import DataType
+            for t in (DataType.NUMBER, DataType.BOOL, DataType.STRING, DataType.PRIMITIVE):
+                try:
+                    c = node.cast(t)
+                except TypeError:
+                    continue
+                if c is node:
+                    continue
+                if c.metadata is node.metadata:
+                    ck.counterexample(f'cast:metadata-shared:{type(node).__name__}', f'«{node}».cast({t!r}) returns a copy that SHARES the metadata dict of the original (annotating one annotates the other)', {'kind': 'but', 'text': str(node)})
+                    bad += 1
+                    break
+                if c.metadata != node.metadata:
+                    ck.counterexample(f'cast:metadata-lost:{type(node).__name__}', f'«{node}».cast({t!r}) returns a copy without the metadata of the original', {'kind': 'but', 'text': str(node)})
+                    bad += 1
+                    break
             # equality and hashing ignore metadata (NaN literals are unequal to their own copies: not a metadata matter, see C06)
             if 'nan' in repr(node).lower():
                 continue
